@@ -208,6 +208,11 @@ func (c *Ctx) Violations() int {
 // Infra aborts the check with exit 2 (never a violation).
 func (c *Ctx) Infra(format string, a ...any) {
 	fmt.Printf("INFRA property=%s: %s\n", c.ID, fmt.Sprintf(format, a...))
+	if c.Violations() > 0 {
+		// violations that were already established on the real code stand; what could not be run afterwards (often because of
+		// them) does not turn the result into "nothing decided"
+		os.Exit(c.Finish())
+	}
 	os.Exit(ExitInfra)
 }
 
